@@ -451,3 +451,72 @@ func handshakeTimeout(r *vh.Runner, c *vh.Case, i int) {
 	r.Count("drain_after_close:"+side, 1)
 	r.Nontrivial(fmt.Sprintf("drain|%d", i))
 }
+
+// closeAtHandshakeEnd: Close is called while a handshake against a live peer
+// is in its last steps (after its final read, around the moment it publishes
+// the session handle; the perturbation sleeps there). Whatever the order, once
+// Close has returned every later call on the client returns at once with
+// end-of-stream, and Handshake and Close agree on what happened.
+func closeAtHandshakeEnd(r *vh.Runner, c *vh.Case, i int) {
+	rng := vh.NewRand(r.Seed, "c17-che", i)
+	hidden := rng.Chance(0.4)
+	pt := perturb.Install(r.Seed^uint64(i)*977, false, rng.Pick(60, 100, 100))
+	defer pt.Remove()
+	cv := &transport.VerifyConfig{}
+	w := fix.NewWorld(false, cv, nil)
+	cv.Store = w.PKI.Store()
+	defer w.Server.Close()
+	id := w.PKI.Issue(certs.RawStringName("client"))
+	cl, _ := w.NewClient(id, hidden, 2*time.Second)
+	mode := "discoverable"
+	if hidden {
+		mode = "hidden"
+	}
+	var hsErr, clErr error
+	var wg sync.WaitGroup
+	wg.Add(2)
+	go func() { defer wg.Done(); hsErr = cl.Handshake() }()
+	delay := time.Duration(rng.Intn(4000)) * time.Microsecond
+	go func() { defer wg.Done(); time.Sleep(delay); clErr = cl.Close() }()
+	done := bub.Go(wg.Wait)
+	if !bub.Within(done, 30*time.Second) {
+		c.Violate("C17:transport-call-never-returns:Client.Handshake+Client.Close:"+mode, map[string]any{"close_after": delay.String()})
+		return
+	}
+	r.Count("evaluations", 1)
+	r.Count("close_at_handshake_end:"+mode, 1)
+	d := map[string]any{"mode": mode, "close_after": delay.String(), "handshake_result": fmt.Sprint(hsErr), "close_result": fmt.Sprint(clErr), "perturbation": pt.Signature()}
+	// after Close returned: reads and writes end at once
+	type res struct {
+		op  string
+		err error
+	}
+	out := make(chan res, 3)
+	buf := make([]byte, 2000)
+	go func() { _, err := cl.ReadMsg(buf); out <- res{"Client.ReadMsg", err} }()
+	go func() { out <- res{"Client.WriteMsg", cl.WriteMsg([]byte("after close"))} }()
+	go func() { out <- res{"Client.Close", cl.Close()} }()
+	for k := 0; k < 3; k++ {
+		select {
+		case x := <-out:
+			if x.op == "Client.ReadMsg" && !errors.Is(x.err, io.EOF) {
+				d["err"] = fmt.Sprint(x.err)
+				c.Violate("C17:read-after-close-is-not-EOF:Client:after-close-at-handshake-end", d)
+				return
+			}
+			if x.op == "Client.WriteMsg" && x.err == nil {
+				c.Violate("C17:write-after-close-succeeds:Client:after-close-at-handshake-end", d)
+				return
+			}
+		case <-time.After(20 * time.Second):
+			c.Violate("C17:call-after-close-never-returns:after-close-at-handshake-end:"+mode, d)
+			return
+		}
+	}
+	if hsErr == nil {
+		r.Count("handshake_won", 1)
+	} else {
+		r.Count("close_won", 1)
+	}
+	r.Nontrivial(fmt.Sprintf("che|%d|%v", i, hsErr == nil))
+}
